@@ -8,13 +8,15 @@
 import Valida.Spec.Parse
 import Valida.Eq
 import ValidaProofs.Lemmas.Basic
+import ValidaProofs.Lemmas.C10Parse
+import ValidaProofs.Lemmas.C10Path
 namespace ValidaProofs
 open Valida ValidaGen
 
 /-- the part-type table of the source -/
 theorem C10_cls_lookup :
     clsLookup = [("map_value", "MapValue"), ("list_value", "ListValue"), ("map_or_list_value", "MapOrListValue")] := by
-  sorry
+  rfl
 
 /-- bare parts: `{type: map_value}` is `MapValue()`, `{type: list_value}` is `ListValue()`, `{}` and
     `{type: map_or_list_value}` are `MapOrListValue()`; a label is kept -/
@@ -24,7 +26,12 @@ theorem C10_bare_parts (fuel : Nat) (l : PyVal) (hl : l ≠ .none) :
     parsePart (fuel + 1) [] = Part.mkMolv .none .none .none (some Cond.null) (some Cond.null) (some Cond.null) none ∧
     parsePart (fuel + 1) [(.str "type", .str "map_or_list_value")] = parsePart (fuel + 1) [] ∧
     parsePart (fuel + 1) [(.str "label", l), (.str "type", .str "map_value")] = Part.mkMap .none .none (some Cond.null) (some l) := by
-  sorry
+  refine ⟨?_, ?_, ?_, ?_, ?_⟩
+  · rw [parsePart.eq_2]; rfl
+  · rw [parsePart.eq_2]; rfl
+  · rw [parsePart.eq_2]; rfl
+  · rw [parsePart.eq_2]; rfl
+  · rw [parsePart.eq_2]; cases l <;> first | exact absurd rfl hl | rfl
 
 /-- the long form `key: <condition spec>` and the dotted shorthand `key.<callable>: args` build the same
     part, and so do `value` / `index` – whatever the condition spec parses to -/
@@ -32,26 +39,26 @@ theorem C10_long_is_short (fuel : Nat) (k : String) (v : PyVal) (c : Cond Arg)
     (hk : "key.".toList.isPrefixOf k.toList = true)
     (hc : parseCond (fuel + 1) (.dict [(.str k, v)]) = .ok c) (hlike : (litCond c).isLike "key" = true) :
     parsePart (fuel + 2) [(.str "type", .str "map_value"), (.str "key", .dict [(.str k, v)])] =
-    parsePart (fuel + 2) [(.str "type", .str "map_value"), (.str k, v)] := by
-  sorry
+    parsePart (fuel + 2) [(.str "type", .str "map_value"), (.str k, v)] :=
+  C10L.long_is_short fuel k v c hk hc hlike
 
 /-- `key: {key.equal_to: s}` is `MapValue(key=s)` (equal as parts), `index.eq: n` is `ListValue(index=n)` -/
 theorem C10_key_equal_is_api (fuel : Nat) (s : String) (n : Int) :
     (∃ p q, parsePart (fuel + 4) [(.str "type", .str "map_value"), (.str "key.equal_to", .str s)] = .ok p ∧
             Part.mkMap (.val (.str s)) .none none none = .ok q ∧ partEq p q = true) ∧
     (∃ p q, parsePart (fuel + 4) [(.str "type", .str "list_value"), (.str "index.eq", .int n)] = .ok p ∧
-            Part.mkList (.val (.int n)) .none none none = .ok q ∧ partEq p q = true) := by
-  sorry
+            Part.mkList (.val (.int n)) .none none none = .ok q ∧ partEq p q = true) :=
+  C10L.key_equal_is_api fuel s n
 
 /-- primitive part specs are the primitives of the API: `from_part_specs(*prims) = DataPath(*prims)` -/
 theorem C10_prim_specs (fuel : Nat) (prims : List PyVal) (h : ∀ v ∈ prims, ∀ kvs, v ≠ .dict kvs) :
-    fromPartSpecs (fuel + 1) prims = Path.mk' (prims.map PartArg.prim) := by
-  sorry
+    fromPartSpecs (fuel + 1) prims = Path.mk' (prims.map PartArg.prim) :=
+  C10L.prim_specs fuel prims h
 
 /-- a part given as a mapping makes the path non-concrete, like a part object in the API -/
 theorem C10_mapping_part_non_concrete (fuel : Nat) (pre post : List PyVal) (kvs : List (PyVal × PyVal)) (p : Path)
-    (h : fromPartSpecs (fuel + 1) (pre ++ [.dict kvs] ++ post) = .ok p) : p.concrete = false := by
-  sorry
+    (h : fromPartSpecs (fuel + 1) (pre ++ [.dict kvs] ++ post) = .ok p) : p.concrete = false :=
+  C10L.mapping_part_non_concrete fuel pre post kvs p h
 
 /-- path specs: the suffix tokens are the modifier methods, in either order, with the aliases
     type/len -/
@@ -65,23 +72,23 @@ theorem C10_suffixes (fuel : Nat) (parts : PyVal) (p : Path) (items : List PyVal
     parsePathSpec (fuel + 2) (.dict [(.str "path.map_keys.single", parts)]) =
       ((p.withDatum .mapKeys).bind (fun q => q.withMulti .single)).map Sniffed.path ∧
     parsePathSpec (fuel + 2) (.dict [(.str "path.single.map_keys", parts)]) =
-      ((p.withMulti .single).bind (fun q => q.withDatum .mapKeys)).map Sniffed.path := by
-  sorry
+      ((p.withMulti .single).bind (fun q => q.withDatum .mapKeys)).map Sniffed.path :=
+  C10L.suffixes fuel parts p items hi hp
 
 /-- path strings: tokens that are not numbers are plain keys -/
 theorem C10_from_str_plain (toks : List String) (delim : Char)
     (h : ∀ t ∈ toks, fromStrToken t = .ok (.prim (.str t)))
     (hs : (splitOnChar delim [] (String.intercalate (String.singleton delim) toks).toList).map String.ofList = toks)
     (hne : toks ≠ []) (hne' : String.intercalate (String.singleton delim) toks ≠ "") :
-    fromStr (String.intercalate (String.singleton delim) toks) delim = Path.mk' (toks.map (fun t => PartArg.prim (.str t))) := by
-  sorry
+    fromStr (String.intercalate (String.singleton delim) toks) delim = Path.mk' (toks.map (fun t => PartArg.prim (.str t))) :=
+  C10L.from_str_plain toks delim h hs hne'
 
 /-- an integer token matches the string key, the integer key and the list index -/
 theorem C10_from_str_int_token :
     ∃ part, fromStrToken "12" = .ok (.part part) ∧ part.kind = .molv ∧
       condEqLit part.listCond (eqLeaf .index (.int 12)) = true ∧
       condEqLit part.mapCond (.leaf { cls := .key, fn := "in_", args := [], kwargs := [("value", .tuple [.str "12", .int 12])] }) = true := by
-  sorry
+  refine ⟨_, rfl, rfl, ?_, ?_⟩ <;> decide +kernel
 
 /-- rule specs: the fields -/
 theorem C10_rule_fields (fuel : Nat) (pathSpec condSpec : PyVal) (items : List PyVal) (p : Path) (c : Cond Arg)
@@ -91,8 +98,8 @@ theorem C10_rule_fields (fuel : Nat) (pathSpec condSpec : PyVal) (items : List P
     (∃ r, parseRule fuel (.dict [(.str "condition", condSpec), (.str "cast", .dict [(.str "str", .str "int")]), (.str "path", pathSpec)]) = .ok r ∧
         r.rule.path = p ∧ r.rule.cond = c ∧ r.rule.cast = [(PyType.str, "int")]) ∧
     (∃ r, parseRule fuel (.dict [(.str "path", pathSpec), (.str "condition", condSpec), (.str "cast", .dict [(.str "str", .str "bool")])]) = .ok r ∧
-        r.rule.cast = [(PyType.str, "cast_string_to_bool")]) := by
-  sorry
+        r.rule.cast = [(PyType.str, "cast_string_to_bool")]) :=
+  C10L.rule_fields fuel pathSpec condSpec items p c hi hp hc
 
 /-- `doc` in every accepted shape is normalised to `{description: [...], examples: [...]}` with the
     entries stripped -/
@@ -102,6 +109,6 @@ theorem C10_doc_shapes :
     normDoc (some (.list [.str "a ", .str " b"])) = .ok (some (.dict [(.str "description", .list [.str "a", .str "b"]), (.str "examples", .list [])])) ∧
     normDoc (some (.dict [(.str "description", .str " d ")])) = .ok (some (.dict [(.str "description", .list [.str "d"]), (.str "examples", .list [])])) ∧
     normDoc (some (.dict [(.str "examples", .list [.str "e "])])) = .ok (some (.dict [(.str "examples", .list [.str "e"]), (.str "description", .list [])])) := by
-  sorry
+  refine ⟨rfl, ?_, ?_, ?_, ?_⟩ <;> rfl
 
 end ValidaProofs
